@@ -94,6 +94,13 @@ def check_case(case):
     args = sorted(combos)
     f = xfn.make_fn(args, kind=kind, name="f09")
     d = core.fresh_dir("c09")
+    # (the crop's location may itself contain the words the crop's own
+    # sub-directories and files are named with)
+    subdir = [None, "results", "my batches/xyz-result-1"][
+        core.pick([N, mode, req, form, kind, "dir"], 3)]
+    if subdir:
+        d = os.path.join(d, subdir)
+        os.makedirs(d)
     vio = []
 
     def key(sym):
